@@ -41,6 +41,7 @@ def required(tier):
         "grammar.overlap": 3,
         "lex.tree_sets_compared": 200,
         "long_inputs.ge12": 60,
+        "parses.from_start_position": 1000,
     }
 
 
@@ -138,15 +139,36 @@ def one_grammar(ctx, mon, name, g, alphabet, maxlen):
             break
 
 
-def check_input(ctx, mon, g, pg, parser, pkeys, case, inp, long=False):
+def unshift(obj, d):
+    """Positions of a parse started at position d, brought back to those of a parse from 0."""
+    if d == 0:
+        return obj
+    if type(obj) is int:
+        return obj - d
+    if isinstance(obj, tuple):
+        return tuple(unshift(x, d) for x in obj)
+    if isinstance(obj, (set, frozenset)):
+        return type(obj)(unshift(x, d) for x in obj)
+    if isinstance(obj, list):
+        return [unshift(x, d) for x in obj]
+    return obj
+
+
+def check_input(ctx, mon, g, pg, parser, pkeys, case, inp, long=False, offset=0):
     chart = cfg.Chart(g, inp, skip=cfg.skip_none)
     if not chart.is_sentence():
         return
     refcount = chart.count()
-    key = (case["grammar"], case["tables"], inp)
+    if offset == 0 and not long and ctx.rng.random() < 0.12:
+        # the same sentence parsed from a later start position of a longer text: same forest, shifted
+        off = ctx.rng.choice([1, 1, 2, 3])
+        check_input(ctx, mon, g, pg, parser, pkeys, dict(case, offset=off), inp, offset=off)
+    key = (case["grammar"], case["tables"], inp, offset)
+    if offset:
+        ctx.count("parses.from_start_position")
     try:
         with pgx.watchdog(30):
-            o = glrobs.parse_glr(parser, inp)
+            o = glrobs.parse_glr(parser, "#" * offset + inp, **({"position": offset} if offset else {}))
     except pgx.CaseTimeout:
         ctx.case(key, False)
         ctx.inconc("parse timeout: %r on %r" % (case["grammar"], inp))
@@ -171,6 +193,7 @@ def check_input(ctx, mon, g, pg, parser, pkeys, case, inp, long=False):
             ctx.count("closure_violation_cyclic_parses")
     ref_packed = chart.packed()
     got_packed, nlinks = glrobs.forest_packed(o.forest, pkeys)
+    got_packed = unshift(got_packed, offset)
     ref_named = set((k, g.prods[pi], spans) for (k, pi, spans) in ref_packed)
     ctx.count("packed_alternatives_compared", len(ref_named))
     missing = ref_named - got_packed
@@ -191,6 +214,7 @@ def check_input(ctx, mon, g, pg, parser, pkeys, case, inp, long=False):
         ref_by_key.setdefault(k, set()).add((pk, spans))
     root_key_end = o.forest.result.end_position
     for key, alts in glrobs.forest_links(o.forest, pkeys):
+        key, alts = unshift(key, offset), unshift(alts, offset)
         ctx.count("links_compared")
         lack = ref_by_key.get(key, set()) - alts
         if lack:
@@ -206,6 +230,7 @@ def check_input(ctx, mon, g, pg, parser, pkeys, case, inp, long=False):
     if refcount <= 300 and not o.loop and o.len is not None and o.len <= 3000:
         ref_forms = set(pgx.ref_tree_form(t, g) for t in chart.trees())
         got_forms, complete = glrobs.forest_forms(o.forest, pkeys, 3000)
+        got_forms = unshift(got_forms, offset)
         ctx.count("tree_sets_compared")
         lost = ref_forms - set(got_forms)
         if lost:
@@ -236,6 +261,6 @@ def replay(case, ctx):
         long = len(case["input"]) >= 8
         if long:
             mon.reduce_budget = 3000000
-        check_input(ctx, mon, g, pg, parser, pgx.prod_keys(pg), case, case["input"], long=long)
+        check_input(ctx, mon, g, pg, parser, pgx.prod_keys(pg), case, case["input"], long=long, offset=case.get("offset", 0))
     finally:
         mon.uninstall()
